@@ -2,6 +2,11 @@
 From Unimock Require Import Model.Eval Spec.FirstMatch.
 Open Scope N_scope.
 
+(* ---------- strings ---------- *)
+
+Lemma sapp_assoc (a b c : string) : ((a ++ b) ++ c = a ++ (b ++ c))%string.
+Proof. induction a as [|ch a IH]; cbn; [reflexivity|now rewrite IH]. Qed.
+
 (* ---------- table ---------- *)
 
 Lemma lookup_update_same m v (tb : table) : lookup m (update m v tb) = Some v.
